@@ -24,7 +24,7 @@ def make_files(rng, nfiles, tier, wd, max_links=4, enc_pool=12, small=False, all
     files = []
     for k in range(nfiles):
         nl = rng.choice([1, 1, 2, 2, 3, max_links])
-        data, Ns, used, kinds = b"", [], set(), []
+        data, Ns, used, kinds, goffs = b"", [], set(), [], []
         serials = set()          # serial numbers must be unique within a physical stream (Ogg framing rule)
         for li in range(nl):
             d = None
@@ -35,6 +35,7 @@ def make_files(rng, nfiles, tier, wd, max_links=4, enc_pool=12, small=False, all
                     d, N = enc[j], specs[j][4]
                     serials.add(specs[j][0] & 0xffffffff)
                     kinds.append("enc")
+                    goffs.append(0)
             if d is None:
                 ser = rng.choice([5000, 5000, 0x7fff0000, 0x80000000, 0xfff00000]) + (k * 10 + li) % 60000
                 while (ser & 0xffffffff) in serials:
@@ -43,10 +44,11 @@ def make_files(rng, nfiles, tier, wd, max_links=4, enc_pool=12, small=False, all
                 d, m = vfgen.handmade_link(rng, ser, small=small, allow_trim_begin=allow_trim_begin)
                 N = m["N"]
                 kinds.append("hand")
+                goffs.append(m.get("gran_offset", 0))
             data += d
             Ns.append(N)
         pages = streams.parse_pages(data)
-        files.append({"data": data, "Ns": Ns, "pages": pages, "kinds": kinds})
+        files.append({"data": data, "Ns": Ns, "pages": pages, "kinds": kinds, "goffs": goffs})
     return files
 
 
